@@ -316,6 +316,9 @@ def build_variant(repo, with_step):
         marker = '// <<< code'
         i0 = u.text.index(marker)
         u.text = u.text[:i0] + gen_spec + u.text[i0:]
+    else:
+        i0 = u.text.index('// <<< code')
+        u.text = u.text[:i0] + 'pub open spec fn esc(c: char) -> Seq<char> { seq![c] }   // unused in the invariant-only variant\n' + u.text[i0:]
     # ---- invariant and contracts ------------------------------------------------------------
     u.body_start_impl = None
     u.text = u.text.replace("impl<'a> LinkFormatWrite<'a> {", """impl<'a> LinkFormatWrite<'a> {
